@@ -69,6 +69,31 @@ def roundtrip_thunk(cls, with_rest=True):
     return thunk
 
 
+def compose_only_unit(cls):
+    """K6 (and K9) alone, for a class whose round trip K3 is a listed known finding: symbolic object, real compose, the
+    composed bytes against the specification function; the parser is not run"""
+    def thunk():
+        P = E.cur()
+        P.top_class = cls
+        obj = gen.sym_object(P, cls, 'o')
+        P.inputs['object'] = obj
+        out = vc.outcome_of(lambda: I.call(I.getattr_(obj, 'compose'), [], {}))
+        if out.kind == 'raise':
+            raise E.PathEnd()                   # outside the domain of compose: nothing is laid out (K6 says nothing)
+        wire = ops.as_seq(out.value)
+        P.inputs['wire'] = wire
+        k6(P, cls, obj, wire)
+
+    def run():
+        setup()
+        gen.BOUNDED_NOTES.clear()
+        r = vc.run_unit(cls.__name__, thunk, max_paths=3000)
+        if gen.BOUNDED_NOTES:
+            r.extra['bounded'] = sorted(set(r.extra.get('bounded', [])) | gen.BOUNDED_NOTES)
+        return r
+    return run
+
+
 def k6(P, cls, obj, wire):
     """clause K6: the composed bytes equal the specification encoding written from the protocol documents"""
     from spec import wire as W, tls, opptls      # noqa: F401
